@@ -195,57 +195,45 @@ func (d *FormatDecoder) Next() (interface{}, error) {
 		return e, nil
 
 	case CaFormatUser:
-		b := make([]byte, hdr.Size-16)
-		if _, err = io.ReadFull(d.r, b); err != nil {
+		b, err := d.readString(hdr, 16)
+		if err != nil {
 			return nil, err
 		}
-		// Strip off the 0 byte
-		b = b[:len(b)-1]
 		return FormatUser{FormatHeader: hdr, Name: string(b)}, nil
 
 	case CaFormatGroup:
-		b := make([]byte, hdr.Size-16)
-		if _, err = io.ReadFull(d.r, b); err != nil {
+		b, err := d.readString(hdr, 16)
+		if err != nil {
 			return nil, err
 		}
-		// Strip off the 0 byte
-		b = b[:len(b)-1]
 		return FormatGroup{FormatHeader: hdr, Name: string(b)}, nil
 
 	case CaFormatXAttr:
-		b := make([]byte, hdr.Size-16)
-		if _, err = io.ReadFull(d.r, b); err != nil {
+		b, err := d.readString(hdr, 16)
+		if err != nil {
 			return nil, err
 		}
-		// Strip off the 0 byte
-		b = b[:len(b)-1]
 		return FormatXAttr{FormatHeader: hdr, NameAndValue: string(b)}, nil
 
 	case CaFormatSELinux:
-		b := make([]byte, hdr.Size-16)
-		if _, err = io.ReadFull(d.r, b); err != nil {
+		b, err := d.readString(hdr, 16)
+		if err != nil {
 			return nil, err
 		}
-		// Strip off the 0 byte
-		b = b[:len(b)-1]
 		return FormatSELinux{FormatHeader: hdr, Label: string(b)}, nil
 
 	case CaFormatFilename:
-		b := make([]byte, hdr.Size-16)
-		if _, err = io.ReadFull(d.r, b); err != nil {
+		b, err := d.readString(hdr, 16)
+		if err != nil {
 			return nil, err
 		}
-		// Strip off the 0 byte
-		b = b[:len(b)-1]
 		return FormatFilename{FormatHeader: hdr, Name: string(b)}, nil
 
 	case CaFormatSymlink:
-		b := make([]byte, hdr.Size-16)
-		if _, err = io.ReadFull(d.r, b); err != nil {
+		b, err := d.readString(hdr, 16)
+		if err != nil {
 			return nil, err
 		}
-		// Strip off the 0 byte
-		b = b[:len(b)-1]
 		return FormatSymlink{FormatHeader: hdr, Target: string(b)}, nil
 
 	case CaFormatDevice:
@@ -264,6 +252,9 @@ func (d *FormatDecoder) Next() (interface{}, error) {
 		return e, nil
 
 	case CaFormatPayload:
+		if hdr.Size < 16 {
+			return nil, InvalidFormat{"payload size too small"}
+		}
 		size := hdr.Size - 16
 		r := io.LimitReader(d.r, int64(size))
 		// Record the reader to be read fully on the next iteration if the caller
@@ -272,8 +263,11 @@ func (d *FormatDecoder) Next() (interface{}, error) {
 		return FormatPayload{FormatHeader: hdr, Data: r}, nil
 
 	case CaFormatFCaps:
-		b := make([]byte, hdr.Size-16)
-		if _, err = io.ReadFull(d.r, b); err != nil {
+		if hdr.Size < 16 {
+			return nil, InvalidFormat{"fcaps size too small"}
+		}
+		b, err := d.r.ReadN(hdr.Size - 16)
+		if err != nil {
 			return nil, err
 		}
 		return FormatFCaps{FormatHeader: hdr, Data: b}, nil
@@ -288,12 +282,10 @@ func (d *FormatDecoder) Next() (interface{}, error) {
 		if err != nil {
 			return nil, err
 		}
-		b := make([]byte, hdr.Size-32)
-		if _, err = io.ReadFull(d.r, b); err != nil {
+		b, err := d.readString(hdr, 32)
+		if err != nil {
 			return nil, err
 		}
-		// Strip off the 0 byte
-		b = b[:len(b)-1]
 		e.Name = string(b)
 		return e, nil
 
@@ -307,12 +299,10 @@ func (d *FormatDecoder) Next() (interface{}, error) {
 		if err != nil {
 			return nil, err
 		}
-		b := make([]byte, hdr.Size-32)
-		if _, err = io.ReadFull(d.r, b); err != nil {
+		b, err := d.readString(hdr, 32)
+		if err != nil {
 			return nil, err
 		}
-		// Strip off the 0 byte
-		b = b[:len(b)-1]
 		e.Name = string(b)
 		return e, nil
 
@@ -345,23 +335,30 @@ func (d *FormatDecoder) Next() (interface{}, error) {
 		return e, nil
 
 	case CaFormatGoodbye:
-		n := (hdr.Size - 16) / 24
-		items := make([]FormatGoodbyeItem, n)
-		e := FormatGoodbye{FormatHeader: hdr, Items: items}
-		for i := uint64(0); i < n; i++ {
-			items[i].Offset, err = d.r.ReadUint64()
-			if err != nil {
-				return nil, err
-			}
-			items[i].Size, err = d.r.ReadUint64()
-			if err != nil {
-				return nil, err
-			}
-			items[i].Hash, err = d.r.ReadUint64()
-			if err != nil {
-				return nil, err
-			}
+		if hdr.Size < 16 {
+			return nil, InvalidFormat{"goodbye size too small"}
 		}
+		// The number of items comes from the input, don't allocate them up
+		// front but as they are read.
+		n := (hdr.Size - 16) / 24
+		var items []FormatGoodbyeItem
+		for i := uint64(0); i < n; i++ {
+			var item FormatGoodbyeItem
+			item.Offset, err = d.r.ReadUint64()
+			if err != nil {
+				return nil, err
+			}
+			item.Size, err = d.r.ReadUint64()
+			if err != nil {
+				return nil, err
+			}
+			item.Hash, err = d.r.ReadUint64()
+			if err != nil {
+				return nil, err
+			}
+			items = append(items, item)
+		}
+		e := FormatGoodbye{FormatHeader: hdr, Items: items}
 		// Ensure we have the tail marker in the last item
 		if len(items) < 1 || items[len(items)-1].Hash != CaFormatGoodbyeTailMarker {
 			return nil, InvalidFormat{"tail marker not found"}
@@ -438,6 +435,21 @@ func (d *FormatDecoder) Next() (interface{}, error) {
 	default:
 		return nil, fmt.Errorf("unsupported header type %x", hdr.Type)
 	}
+}
+
+// readString reads the 0-terminated string that makes up the remainder of a
+// variable-length element, hdrLen being the number of bytes of the element
+// already consumed. The length is taken from the input and validated.
+func (d *FormatDecoder) readString(hdr FormatHeader, hdrLen uint64) ([]byte, error) {
+	if hdr.Size < hdrLen+1 {
+		return nil, InvalidFormat{"element size too small"}
+	}
+	b, err := d.r.ReadN(hdr.Size - hdrLen)
+	if err != nil {
+		return nil, err
+	}
+	// Strip off the 0 byte
+	return b[:len(b)-1], nil
 }
 
 // FormatEncoder takes casync format elements and encodes them into a stream.
